@@ -2,6 +2,7 @@ package props
 
 import (
 	"bytes"
+	"context"
 	"crypto/sha256"
 	"encoding/hex"
 	"encoding/json"
@@ -10,6 +11,7 @@ import (
 	"os"
 	"os/exec"
 	"path/filepath"
+	"reflect"
 	"strings"
 	"sync"
 	"testing"
@@ -47,6 +49,9 @@ type digest struct {
 	SimMismatch string
 	// Gas: gas used per transaction tag (this replay)
 	Gas map[string]int64
+	// QueryDrift: a query server method that, handed the very same request object twice, answers differently the
+	// second time or leaves the request changed
+	QueryDrift string
 }
 
 func h(b []byte) string { s := sha256.Sum256(b); return hex.EncodeToString(s[:12]) }
@@ -158,7 +163,48 @@ func replayDigestOpt(c *c18case, gas map[string]int64, slack uint64, wrap func(s
 		d.Parts = append(d.Parts, fmt.Sprintf("query.%s=%d:%s:%s", q.Method, code, h([]byte(lg)), h(bz)))
 	}
 	d.Parts = append(d.Parts, "cctp-kv="+h([]byte(strings.Join(ch.RawKV(ch.CctpKey), "\n"))))
+	d.QueryDrift = queryTwice(ch, w0(ch, c))
 	return d, nil
+}
+
+// queryTwice hands every query server method the same request object twice (as an in-process caller does): both
+// answers must be equal and the request must come back as it went in.
+func queryTwice(ch *chain.Chain, w *sim.World) (drift string) {
+	defer func() {
+		if r := recover(); r != nil {
+			drift = "" // a panicking query is C20's business
+		}
+	}()
+	kv := reflect.ValueOf(ch.Keeper)
+	for _, q := range allQueries(w) {
+		m := kv.MethodByName(q.Method)
+		if !m.IsValid() {
+			continue
+		}
+		before, _ := proto.Marshal(q.Req)
+		var answers []string
+		for i := 0; i < 2; i++ {
+			out := m.Call([]reflect.Value{reflect.ValueOf(context.Context(ch.Branch("q2"))), reflect.ValueOf(q.Req)})
+			a := "error"
+			if out[1].IsNil() {
+				if pm, ok := out[0].Interface().(proto.Message); ok {
+					bz, _ := proto.Marshal(pm)
+					a = h(bz)
+				}
+			} else {
+				a = "error: " + out[1].Interface().(error).Error()
+			}
+			answers = append(answers, a)
+		}
+		after, _ := proto.Marshal(q.Req)
+		if answers[0] != answers[1] {
+			return fmt.Sprintf("%s: first answer %s, second answer to the same request object %s", q.Method, answers[0], answers[1])
+		}
+		if !bytes.Equal(before, after) {
+			return fmt.Sprintf("%s: request %x came back as %x", q.Method, before, after)
+		}
+	}
+	return ""
 }
 
 // w0 gives allQueries a model to pick arguments from (the genesis model: fixed, replay-independent).
@@ -318,6 +364,9 @@ func c18check(c *c18case, unrelated *c18case, concurrent int) *Viol {
 	ref, err := replayDigest(c)
 	if err != nil {
 		return viol("C18", 0, "replay of a recorded history failed", "completes", err)
+	}
+	if ref.QueryDrift != "" {
+		return viol("C18", 0, "a query handed the same request object twice", "same answer, request untouched", ref.QueryDrift)
 	}
 	if ref.SimMismatch != "" {
 		return viol("C18", 0, "a transaction behaves differently in simulation mode than when it is delivered on the same state", "same verdict", ref.SimMismatch)
